@@ -56,7 +56,7 @@ def gen(seed: int, i: int, tier: str) -> dict:
     cfg = {"pin": proto if rng.random() < 0.6 else None, "metric": rng.random() < 0.5, "tz": tz,
            "tz_offset": off, "epoch": rng.choice(EPOCHS) + rng.randint(0, 100000) * rng.choice([0, 1])}
     ops = []
-    known = rng.sample([1, 2, 3, 9, 100, 254], rng.randint(1, 3))
+    known = rng.sample([0, 1, 2, 3, 9, 100, 254], rng.randint(1, 3))
     unknown = [n for n in (4, 5, 77) if n not in known]
     children = [0, 1, 7]
     # value types deliberately include numbers that mean something else as INTERNAL types (1 time, 2 version,
